@@ -29,6 +29,7 @@ def run_hist(seed, nops):
     ev = []
     try:
         tc = TravelCalculator(down, up)
+        other = TravelCalculator(up + 1, down + 2) if rnd.random() < 0.5 else None       # a second cover of the same process, moved in between; not observed
 
         def state():
             d = {TravelStatus.DIRECTION_UP: "up", TravelStatus.DIRECTION_DOWN: "down", TravelStatus.STOPPED: "stopped"}[tc.travel_direction]
@@ -76,6 +77,12 @@ def run_hist(seed, nops):
                 call("set", lambda p=p: tc.set_position(p), p=p)
             if rnd.random() < 0.5:
                 call("query", tc.current_position)
+            if other is not None and rnd.random() < 0.4:
+                try:
+                    rnd.choice([lambda: other.start_travel(rnd.randrange(0, 101)), other.stop, lambda: other.update_position(rnd.randrange(0, 101)),
+                                lambda: other.set_position(rnd.randrange(0, 101)), other.current_position, other.start_travel_up, other.start_travel_down])()
+                except Exception:  # noqa: BLE001 - the other cover's business
+                    pass
     finally:
         time.time = real
     return {"down": int(down * 1024), "up": int(up * 1024), "ev": ev}
